@@ -108,6 +108,7 @@ Definition oracle_ok (c : case) : bool :=
   let rc := received ops obs in
   server_close_total 0 false (map (fun '(x, t) => (x, t)) (combine (zip3 ops obs) (totals 0 obs))) &&
   oracle_no_panic obs && frozen_after_seal obs && done_ok ops obs && oracle_consumers ops obs &&
+  oracle_heartbeats ops obs &&
   match server_close_of ops, client_close_bytes ops with
   | Some (code, text), _ =>
       (* server close (first): the buffer ends with CloseOk when sealed; everyone is told *)
